@@ -399,7 +399,7 @@ def gen_cases(rng, tier):
 
     # (a) transplants: data of X (field / construct / bounds / ring, bare or re-wrapped) moved
     #     into a fresh field or into the field read from Y, a few derivations either side
-    for _ in range(350 * k):
+    for _ in range(300 * k):
         pre, n = rand_history(rng, 3, 0.0)
         dst_new = rng.random() < 0.5
         ops = list(pre)
@@ -435,11 +435,11 @@ def gen_cases(rng, tier):
             w["target"], w["tvia"] = rng.choice([("X", rng.choice(TVIAS)), ("X", rng.choice(TVIAS)), ("Y", "alias"), ("Y", "direct")])
         add(base_pair(rng), ops, w, "transplant")
     # (b) random histories
-    for _ in range(800 * k):
+    for _ in range(650 * k):
         ops, n = rand_history(rng, 8, 0.12)
         add(base_pair(rng), ops, rand_write(rng, n), "history")
     # (c) options: little or no history, the whole option space, every base kind
-    for _ in range(350 * k):
+    for _ in range(300 * k):
         ops, n = rand_history(rng, 1, 0.0)
         w = rand_write(rng, n)
         w["harmless"] = rng.randrange(N_HARMLESS)
@@ -449,7 +449,7 @@ def gen_cases(rng, tier):
         add(base_pair(rng), ops, w, "options", via="direct")
     # (d) spellings: the same file named in two ways (links to the file, to a parent directory, to the
     #     scratch directory, '..', doubled slashes, relative), little history, plain mode-w writes
-    for _ in range(300 * k):
+    for _ in range(250 * k):
         ops, n = rand_history(rng, 2, 0.15)
         reg = rng.choice([0, 0, 0, 1, n - 1])
         w = {"regs": [reg], "mode": "w", "overwrite": rng.random() < 0.85, "fault": None,
@@ -459,7 +459,7 @@ def gen_cases(rng, tier):
         add(base_pair(rng), ops, w, "spelling")
     # (e) external file: a cell measure flagged external (read from a file or made in memory), the
     #     external file existing / new / a file a construct still reads from, overwrite on and off
-    for _ in range(350 * k):
+    for _ in range(300 * k):
         pre, n = rand_history(rng, 2, 0.1)
         reg = rng.choice([1, 1, 0, n - 1])
         ops = list(pre)
@@ -479,7 +479,7 @@ def gen_cases(rng, tier):
     # (f) asymmetric components: ONE node count / part node count / interior ring / bounds / count /
     #     index / list / cell measure / domain ancillary / coordinate conversion gets a property or a
     #     netCDF name that its siblings lack, then a write that goes ahead (CF >= 1.8)
-    for _ in range(300 * k):
+    for _ in range(250 * k):
         ops, n = [], 2
         reg = rng.choice([0, 0, 1])
         geom = rng.random() < 0.5
